@@ -21,8 +21,12 @@ class Acc:
         self.vcs_unknown = 0
         self.replayed = 0
         self.smt2 = []
+        self.goods = []       # passing cases in candidate form: the replay generator must say HOLDS for them
 
     def merge(self, o):
+        for g in getattr(o, "goods", []):
+            if sum(1 for x in self.goods if x["kind"] == g["kind"]) < 2:
+                self.goods.append(g)
         self.counts.update(o.counts)
         self.tags.update(o.tags)
         self.candidates.extend(o.candidates)
@@ -47,6 +51,11 @@ class Acc:
                 except Exception:
                     pass
             self.samples.append(s)
+
+    def good(self, kind, input):
+        """a case the check found CORRECT, in the form of a candidate of that kind: used to test the replay generator"""
+        if sum(1 for x in self.goods if x["kind"] == kind) < 1:
+            self.goods.append(dict(kind=kind, input=input, detail="sanity"))
 
     def candidate(self, **kw):
         if len(self.candidates) < 400:
